@@ -5,6 +5,8 @@ Theorems about `Uniflow.Table` (model of `pkg/symbol/table.go`).
 -/
 import Uniflow.Proofs.Table
 import Uniflow.Props.C06
+import Uniflow.Proofs.TableRefs
+import Uniflow.Proofs.TableFuel
 
 namespace Uniflow.Table
 
@@ -335,13 +337,13 @@ alternate; `C07.linked_dup_on_pinned` replays that witness on the unfixed loop.)
 theorem C07.linked_nodup (o : Ord) (ho : o.Valid) (st : State) (sb : Sym) (l : List Sym)
     (h : linked o st sb = some l) : (l.map (·.id)).Nodup := by
   unfold linked at h
-  cases hb : bfs o st (fuelOf st) [sb] [] [] with
+  cases hb : bfs o st (bfsFuel st) [sb] [] [] with
   | none => rw [hb] at h; cases h
   | some deg =>
     rw [hb] at h
     simp only at h
     have hd : DegWF deg := degWF_bfs o st _ _ _ _ _ hb ⟨by simp [keys], by simp⟩
-    cases hk : kahn (fun f c => referrers o (1000 + f) st c) (fuelOf st) [sb] [] deg with
+    cases hk : kahn (fun f c => referrers o (1000 + f) st c) (kahnFuel [sb] deg) [sb] [] deg with
     | none => rw [hk] at h; cases h
     | some res =>
       obtain ⟨out, deg'⟩ := res
@@ -382,10 +384,10 @@ namespace Uniflow.Table.C07Ex
 
 /-- `linked` of the pinned tree: the final loop appends every symbol with a non-zero count. -/
 def linkedPinned (o : Ord) (st : State) (sb : Sym) : Option (List Sym) :=
-  match bfs o st (fuelOf st) [sb] [] [] with
+  match bfs o st (bfsFuel st) [sb] [] [] with
   | none => none
   | some deg =>
-    match kahn (fun f c => referrers o (1000 + f) st c) (fuelOf st) [sb] [] deg with
+    match kahn (fun f c => referrers o (1000 + f) st c) (kahnFuel [sb] deg) [sb] [] deg with
     | none => none
     | some (out, deg') => some (out ++ ((o.deg 1 deg').filter (fun p => p.2.2 ≠ 0)).map (·.2.1))
 
@@ -421,16 +423,12 @@ theorem C07.isActivated_iff_closure_nonvacuous :
     aget a.id st.symbols = some a ∧ aget b.id st.symbols = some b ∧ st.symbols.map (·.1) = [1, 2] := by
   decide +kernel
 
-/-! ### full history-level statements (NOT proved)
+/-! ### full history-level statements
 
-What is proved above: the activation test equals the closure predicate in every reachable state
-(`C07.isActivated_iff_closure` + `C07.reachable_keyId`), one pass never notifies a symbol twice
-(`C07.linked_nodup`), a pass notifies exactly the activated symbols of `linked`, each with one
-complete block (`C08.lifecycle_order_*`), and the wiring / name index are exact (`C06.*`).
-Missing for the history-level statements below: `references_exact` (the reverse index has the
-same support as the spec graph, through the `unlinks` filter), completeness of `linked`'s two
-queue loops (every transitive referrer is listed) and fuel sufficiency; they are checked by the
-correspondence runs and the C07 oracle only. -/
+The statements are the `def … _full : Prop` below; they are proved at the end of this file
+(`C07.active_iff_closure`, `C07.alternation`, `C07.unload_before_close`, `C07.close_unloads_all`)
+from `references_exact` (`Proofs/TableRefs.lean`), the exact characterisation of `linked`
+(`linked_spec`), fuel sufficiency (`Proofs/TableFuel.lean`) and the frame lemma `Frame.closure`. -/
 
 /-- At every quiescent point the symbols loaded and not unloaded are exactly those whose
 reference closure is present. -/
@@ -453,3 +451,994 @@ def C07.unload_before_close_full : Prop :=
 def C07.close_unloads_all_full : Prop :=
   ∀ (o : Ord), o.Valid → ∀ h : List Op, WfRun o {} (h ++ [.close]) → OkRun o {} (h ++ [.close]) →
     ∀ k, ¬ activeIn (run o {} (h ++ [.close])).log k
+
+namespace Uniflow.Table
+
+/-! ### `linked` lists exactly the transitive referrers -/
+
+/-- `x` reaches `sb` by following port references (defined from `sb` backwards). -/
+inductive RReach (st : State) (sb : Sym) : Sym → Prop
+  | refl : RReach st sb sb
+  | step {x y : Sym} : RReach st sb y → Edge st x y → RReach st sb x
+
+theorem reach_head {st : State} {x y z : Sym} (h : Edge st x y) (hr : Reach st y z) : Reach st x z := by
+  induction hr with
+  | refl => exact Reach.step Reach.refl h
+  | step _ he ih => exact Reach.step ih he
+
+theorem rreach_iff {st : State} {sb x : Sym} : RReach st sb x ↔ Reach st x sb := by
+  constructor
+  · intro h
+    induction h with
+    | refl => exact Reach.refl
+    | step _ he ih => exact reach_head he ih
+  · intro h
+    have gen : ∀ z, Reach st x z → ∀ w, RReach st w z → RReach st w x := by
+      intro z hz
+      induction hz with
+      | refl => intro w hw; exact hw
+      | step _ he ih => intro w hw; exact ih w (RReach.step hw he)
+    exact gen sb h sb RReach.refl
+
+theorem mem_entries (o : Ord) (ho : o.Valid) (tag : Nat) (st : State) (hin : InnerOK st.references)
+    (id : Nat) (e : Ref) : e ∈ entries o tag st id ↔ ∃ i, e ∈ refsAt st.references id i := by
+  unfold entries refsAt
+  cases ha : aget id st.references with
+  | none => simp
+  | some m =>
+    simp only [List.mem_flatMap]
+    constructor
+    · rintro ⟨p, hp, he⟩
+      have hp' := (ho.2.1 tag m).mem_iff.mp hp
+      refine ⟨p.1, ?_⟩
+      rw [aget_of_mem (hin id m ha) hp']; exact he
+    · rintro ⟨i, he⟩
+      cases hb : aget i m with
+      | none => rw [hb] at he; cases he
+      | some l =>
+        rw [hb] at he
+        exact ⟨(i, l), (ho.2.1 tag m).mem_iff.mpr (mem_of_aget hb), he⟩
+
+theorem mem_referrers (o : Ord) (ho : o.Valid) (tag : Nat) (st : State) (h : RInv st) (curr : Sym)
+    (hc : Live st curr) (x : Sym) : x ∈ referrers o tag st curr ↔ Live st x ∧ Edge st x curr := by
+  unfold referrers
+  simp only [List.mem_filterMap, mem_entries o ho tag st h.inner]
+  constructor
+  · rintro ⟨e, ⟨i, he⟩, hx⟩
+    obtain ⟨S, T, a1, a2, a3, np, hnp, hn, r, hr, hN, hp, _⟩ := (h.refs curr.id i e).mp he
+    have hT : T = curr := by unfold Live at hc; rw [hc] at a2; exact (Option.some.inj a2).symm
+    subst hT
+    have hS0 : e.id ≠ 0 := by have := (h.wf _ _ a1).1; rw [h.keyId _ _ a1] at this; exact this
+    have hres : resolve st T.ns e = e.id := by simp [resolve, hS0]
+    rw [hres, a1] at hx; cases hx
+    refine ⟨by unfold Live; rw [h.keyId _ _ a1]; exact a1, np, hnp, r, hr, ?_, a3⟩
+    rw [(resolve_iff h.toTBase x.ns r T.id T a2).mpr hN]; exact a2
+  · rintro ⟨hl, np, hnp, r, hr, ha, hns⟩
+    have hid : curr.id = resolve st x.ns r := h.keyId _ _ ha
+    have hc' : aget curr.id st.symbols = some curr := hc
+    have hN : Names st x.ns r curr.id := (resolve_iff h.toTBase x.ns r curr.id curr hc').mp hid.symm
+    have hspec : RefSpec st curr.id r.port ⟨x.id, r.name, np.1⟩ :=
+      ⟨x, curr, hl, hc', hns, np, hnp, rfl, r, hr, hN, rfl, rfl⟩
+    refine ⟨⟨x.id, r.name, np.1⟩, ⟨r.port, (h.refs _ _ _).mpr hspec⟩, ?_⟩
+    have hx0 : x.id ≠ 0 := (h.wf _ _ hl).1
+    have : resolve st curr.ns ⟨x.id, r.name, np.1⟩ = x.id := by simp [resolve, hx0]
+    rw [this]; exact hl
+
+/-- `P x`: a present symbol that reaches `sb`. -/
+def TRef (st : State) (sb x : Sym) : Prop := Live st x ∧ RReach st sb x
+
+theorem fold_dadd_spec (ns : List Sym) (d : Deg) :
+    (∀ p ∈ ns.foldl (fun d n => dadd d n 1) d, p ∈ d ∨ (∃ n ∈ ns, p.1 = n.id ∧ p.2.1 = n)) ∧
+    (∀ k ∈ keys d, k ∈ keys (ns.foldl (fun d n => dadd d n 1) d)) ∧
+    (∀ n ∈ ns, n.id ∈ keys (ns.foldl (fun d n => dadd d n 1) d)) ∧
+    ((∀ p ∈ d, 1 ≤ p.2.2) → ∀ p ∈ ns.foldl (fun d n => dadd d n 1) d, 1 ≤ p.2.2) := by
+  induction ns generalizing d with
+  | nil => exact ⟨fun p h => Or.inl h, fun _ h => h, by simp, fun h => h⟩
+  | cons n ns ih =>
+    obtain ⟨i1, i2, i3, i4⟩ := ih (dadd d n 1)
+    simp only [List.foldl_cons]
+    refine ⟨?_, ?_, ?_, ?_⟩
+    · intro p hp
+      rcases i1 p hp with h | ⟨m, hm, e⟩
+      · rcases mem_aset h with e | h
+        · exact Or.inr ⟨n, by simp, by rw [e], by rw [e]⟩
+        · exact Or.inl h
+      · exact Or.inr ⟨m, List.mem_cons_of_mem _ hm, e⟩
+    · intro k hk; exact i2 k (keys_subset_aset _ _ _ k hk)
+    · intro m hm
+      rcases List.mem_cons.mp hm with e | hm
+      · subst e; exact i2 _ ((mem_keys_aset _ _ _ _).mpr (Or.inl rfl))
+      · exact i3 m hm
+    · intro hd
+      apply i4
+      intro p hp
+      rcases mem_aset hp with e | h
+      · rw [e]; simp only
+        unfold dget
+        cases ha : aget n.id d with
+        | none => simp
+        | some q => have := hd (n.id, q) (mem_of_aget ha); simp only at this ⊢; omega
+      · exact hd p h
+
+structure BInv (st : State) (sb : Sym) (q : List Sym) (vis : List Nat) (deg : Deg) : Prop where
+  hq : ∀ s ∈ q, TRef st sb s ∧ (s = sb ∨ s.id ∈ keys deg)
+  hv : ∀ v ∈ vis, ∃ s, TRef st sb s ∧ s.id = v ∧ (s = sb ∨ v ∈ keys deg) ∧
+    ∀ x, Live st x → Edge st x s → (x.id ∈ vis ∨ x ∈ q)
+  hr : sb.id ∈ vis ∨ sb ∈ q
+  hd : ∀ p ∈ deg, TRef st sb p.2.1 ∧ p.2.1.id = p.1 ∧ 1 ≤ p.2.2
+
+theorem bfs_spec (o : Ord) (ho : o.Valid) (st : State) (h : RInv st) (sb : Sym) (f : Nat) (q : List Sym)
+    (vis : List Nat) (deg deg' : Deg) (hb : bfs o st f q vis deg = some deg') (inv : BInv st sb q vis deg) :
+    (∀ x, TRef st sb x → x = sb ∨ x.id ∈ keys deg') ∧
+    (∀ p ∈ deg', TRef st sb p.2.1 ∧ p.2.1.id = p.1 ∧ 1 ≤ p.2.2) := by
+  have fin : ∀ (vis : List Nat) (deg : Deg), BInv st sb [] vis deg →
+      (∀ x, TRef st sb x → x = sb ∨ x.id ∈ keys deg) := by
+    intro vis deg inv x hx
+    have hall : ∀ y, RReach st sb y → Live st y → y.id ∈ vis := by
+      intro y hy
+      induction hy with
+      | refl => intro _; rcases inv.hr with h | h; exact h; cases h
+      | @step x' y' hr he ih =>
+        intro hl
+        have hly : Live st y' := live_of_edge h.keyId he
+        obtain ⟨s, hs, e, _, hcl⟩ := inv.hv _ (ih hly)
+        have : s = y' := live_inj hs.1 hly e
+        subst this
+        rcases hcl x' hl he with h | h; exact h; cases h
+    obtain ⟨s, hs, e, hk, _⟩ := inv.hv _ (hall x hx.2 hx.1)
+    have : s = x := live_inj hs.1 hx.1 e
+    subst this
+    rw [e]; exact hk
+  induction f generalizing q vis deg with
+  | zero =>
+    cases q with
+    | nil => simp [bfs] at hb; subst hb; exact ⟨fin vis deg inv, inv.hd⟩
+    | cons c q => simp [bfs] at hb
+  | succ f ih =>
+    cases q with
+    | nil => simp [bfs] at hb; subst hb; exact ⟨fin vis deg inv, inv.hd⟩
+    | cons c q =>
+      simp only [bfs] at hb
+      obtain ⟨hcP, hcK⟩ := inv.hq c (by simp)
+      split at hb
+      · rename_i hv
+        refine ih q vis deg hb ⟨fun s hs => inv.hq s (List.mem_cons_of_mem _ hs), ?_, ?_, inv.hd⟩
+        · intro v hvv
+          obtain ⟨s, h1, h2, h3, h4⟩ := inv.hv v hvv
+          refine ⟨s, h1, h2, h3, ?_⟩
+          intro x hl he
+          rcases h4 x hl he with h | h
+          · exact Or.inl h
+          · rcases List.mem_cons.mp h with e | h
+            · subst e; exact Or.inl hv
+            · exact Or.inr h
+        · rcases inv.hr with h | h
+          · exact Or.inl h
+          · rcases List.mem_cons.mp h with e | h
+            · rw [e]; exact Or.inl hv
+            · exact Or.inr h
+      · rename_i hv
+        have hmem := fun x => mem_referrers o ho (10 + f) st h c hcP.1 x
+        obtain ⟨d1, d2, d3, d4⟩ := fold_dadd_spec (referrers o (10 + f) st c) deg
+        have hnsP : ∀ n ∈ referrers o (10 + f) st c, TRef st sb n := by
+          intro n hn
+          obtain ⟨hl, he⟩ := (hmem n).mp hn
+          exact ⟨hl, RReach.step hcP.2 he⟩
+        refine ih _ _ _ hb ⟨?_, ?_, ?_, ?_⟩
+        · intro s hs
+          rcases List.mem_append.mp hs with hs | hs
+          · obtain ⟨a, b⟩ := inv.hq s (List.mem_cons_of_mem _ hs)
+            exact ⟨a, b.imp id (d2 _)⟩
+          · exact ⟨hnsP s hs, Or.inr (d3 s hs)⟩
+        · intro v hvv
+          rcases List.mem_cons.mp hvv with e | hvv
+          · subst e
+            refine ⟨c, hcP, rfl, hcK.imp id (d2 _), ?_⟩
+            intro x hl he
+            exact Or.inr (List.mem_append_right _ ((hmem x).mpr ⟨hl, he⟩))
+          · obtain ⟨s, h1, h2, h3, h4⟩ := inv.hv v hvv
+            refine ⟨s, h1, h2, h3.imp id (d2 _), ?_⟩
+            intro x hl he
+            rcases h4 x hl he with h | h
+            · exact Or.inl (List.mem_cons_of_mem _ h)
+            · rcases List.mem_cons.mp h with e | h
+              · subst e; exact Or.inl (by simp)
+              · exact Or.inr (List.mem_append_left _ h)
+        · rcases inv.hr with h | h
+          · exact Or.inl (List.mem_cons_of_mem _ h)
+          · rcases List.mem_cons.mp h with e | h
+            · rw [e]; exact Or.inl (by simp)
+            · exact Or.inr (List.mem_append_left _ h)
+        · intro p hp
+          have h1 := d4 (fun p hp => (inv.hd p hp).2.2) p hp
+          rcases d1 p hp with hold | ⟨n, hn, e1, e2⟩
+          · exact ⟨(inv.hd p hold).1, (inv.hd p hold).2.1, h1⟩
+          · rw [e2]; exact ⟨hnsP n hn, e1.symm, h1⟩
+
+
+theorem kahn_q_sub (succ : Nat → Sym → List Sym) (f : Nat) (q out : List Sym) (deg : Deg)
+    (res : List Sym × Deg) (hr : kahn succ f q out deg = some res) :
+    (∀ s ∈ q, ∃ s' ∈ res.1, s'.id = s.id) ∧ (∀ s ∈ out, s ∈ res.1) := by
+  induction f generalizing q out deg with
+  | zero =>
+    cases q with
+    | nil => simp [kahn] at hr; subst hr; exact ⟨by simp, fun _ h => h⟩
+    | cons c q => simp [kahn] at hr
+  | succ f ih =>
+    cases q with
+    | nil => simp [kahn] at hr; subst hr; exact ⟨by simp, fun _ h => h⟩
+    | cons c q =>
+      simp only [kahn] at hr
+      split at hr
+      · rename_i hany
+        obtain ⟨i1, i2⟩ := ih q out deg hr
+        refine ⟨?_, i2⟩
+        intro s hs
+        rcases List.mem_cons.mp hs with e | hs
+        · subst e
+          simp only [List.any_eq_true, decide_eq_true_eq] at hany
+          obtain ⟨s', hs', e'⟩ := hany
+          exact ⟨s', i2 s' hs', e'⟩
+        · exact i1 s hs
+      · obtain ⟨i1, i2⟩ := ih _ _ _ hr
+        have hsub : ∀ x ∈ q, x ∈ ((succ f c).foldl kahnStep (deg, q)).2 := by
+          have gen : ∀ (ns : List Sym) (acc : Deg × List Sym), ∀ x ∈ acc.2, x ∈ (ns.foldl kahnStep acc).2 := by
+            intro ns
+            induction ns with
+            | nil => intro acc x hx; exact hx
+            | cons n ns ih =>
+              intro acc x hx
+              apply ih
+              unfold kahnStep; simp only; split
+              · exact List.mem_append_left _ hx
+              · exact hx
+          exact gen _ (deg, q)
+        refine ⟨?_, fun s hs => i2 s (List.mem_append_left _ hs)⟩
+        intro s hs
+        rcases List.mem_cons.mp hs with e | hs
+        · subst e; exact ⟨s, i2 s (by simp), rfl⟩
+        · exact i1 s (hsub s hs)
+
+theorem kahn_pred (Pr : Sym → Prop) (succ : Nat → Sym → List Sym)
+    (hs : ∀ f c, Pr c → ∀ n ∈ succ f c, Pr n) (f : Nat) (q out : List Sym) (deg : Deg)
+    (res : List Sym × Deg) (hr : kahn succ f q out deg = some res)
+    (hq : ∀ s ∈ q, Pr s) (ho : ∀ s ∈ out, Pr s) (hd : ∀ p ∈ deg, Pr p.2.1) :
+    (∀ s ∈ res.1, Pr s) ∧ (∀ p ∈ res.2, Pr p.2.1) := by
+  induction f generalizing q out deg with
+  | zero =>
+    cases q with
+    | nil => simp [kahn] at hr; subst hr; exact ⟨ho, hd⟩
+    | cons c q => simp [kahn] at hr
+  | succ f ih =>
+    cases q with
+    | nil => simp [kahn] at hr; subst hr; exact ⟨ho, hd⟩
+    | cons c q =>
+      simp only [kahn] at hr
+      split at hr
+      · exact ih q out deg hr (fun s h => hq s (List.mem_cons_of_mem _ h)) ho hd
+      · have hc : Pr c := hq c (by simp)
+        have gen : ∀ (ns : List Sym) (acc : Deg × List Sym), (∀ n ∈ ns, Pr n) → (∀ s ∈ acc.2, Pr s) →
+            (∀ p ∈ acc.1, Pr p.2.1) →
+            (∀ s ∈ (ns.foldl kahnStep acc).2, Pr s) ∧ (∀ p ∈ (ns.foldl kahnStep acc).1, Pr p.2.1) := by
+          intro ns
+          induction ns with
+          | nil => intro acc _ h1 h2; exact ⟨h1, h2⟩
+          | cons n ns ih =>
+            intro acc hn h1 h2
+            apply ih _ (fun m hm => hn m (List.mem_cons_of_mem _ hm))
+            · intro s hs
+              unfold kahnStep at hs; simp only at hs
+              split at hs
+              · rcases List.mem_append.mp hs with h | h
+                · exact h1 s h
+                · simp at h; subst h; exact hn _ (by simp)
+              · exact h1 s hs
+            · intro p hp
+              have : (kahnStep acc n).1 = dadd acc.1 n (-1) := by
+                unfold kahnStep; simp only; split <;> rfl
+              rw [this] at hp
+              rcases mem_aset hp with e | h
+              · rw [e]; exact hn _ (by simp)
+              · exact h2 p h
+        obtain ⟨g1, g2⟩ := gen (succ f c) (deg, q) (hs f c hc)
+          (fun s h => hq s (List.mem_cons_of_mem _ h)) hd
+        refine ih _ _ _ hr g1 ?_ g2
+        intro s hs
+        rcases List.mem_append.mp hs with h | h
+        · exact ho s h
+        · simp at h; subst h; exact hc
+
+/-- **`linked(sb)` is exactly the set of present symbols that reach `sb`.** -/
+theorem linked_spec (o : Ord) (ho : o.Valid) (st : State) (h : RInv st) (sb : Sym) (hsb : Live st sb)
+    (l : List Sym) (hl : linked o st sb = some l) : ∀ x, x ∈ l ↔ (Live st x ∧ Reach st x sb) := by
+  unfold linked at hl
+  cases hb : bfs o st (bfsFuel st) [sb] [] [] with
+  | none => rw [hb] at hl; cases hl
+  | some deg =>
+    rw [hb] at hl
+    simp only at hl
+    have hP0 : TRef st sb sb := ⟨hsb, RReach.refl⟩
+    obtain ⟨b1, b2⟩ := bfs_spec o ho st h sb _ _ _ _ _ hb
+      ⟨by intro s hs; simp at hs; subst hs; exact ⟨hP0, Or.inl rfl⟩, by simp, Or.inr (by simp), by simp⟩
+    cases hk : kahn (fun f c => referrers o (1000 + f) st c) (kahnFuel [sb] deg) [sb] [] deg with
+    | none => rw [hk] at hl; cases hl
+    | some res =>
+      obtain ⟨out, deg'⟩ := res
+      rw [hk] at hl
+      simp only [Option.some.injEq] at hl
+      -- everything listed reaches sb
+      obtain ⟨p1, p2⟩ := kahn_pred (TRef st sb) _ (by
+          intro f c hc n hn
+          obtain ⟨hl', he⟩ := (mem_referrers o ho _ st h c hc.1 n).mp hn
+          exact ⟨hl', RReach.step hc.2 he⟩) _ _ _ _ _ hk
+        (by intro s hs; simp at hs; subst hs; exact hP0) (by simp) (fun p hp => (b2 p hp).1)
+      -- coverage
+      have hinv : KInv deg [] [sb] := by
+        refine ⟨?_, fun p hp => (b2 p hp).2.1⟩
+        intro p hp h0
+        have := (b2 p hp).2.2; omega
+      obtain ⟨r1, r2, _⟩ := kahn_cover _ _ _ _ _ _ hk hinv
+      obtain ⟨q1, _⟩ := kahn_q_sub _ _ _ _ _ _ hk
+      simp only at p1 p2 r1 r2 q1
+      subst hl
+      intro x
+      constructor
+      · intro hx
+        rcases List.mem_append.mp hx with hx | hx
+        · obtain ⟨a, b⟩ := p1 x hx; exact ⟨a, rreach_iff.mp b⟩
+        · obtain ⟨p, hp, e⟩ := List.mem_map.mp hx
+          have hp' := (ho.2.2 1 deg').mem_iff.mp (List.mem_filter.mp hp).1
+          obtain ⟨a, b⟩ := p2 p hp'
+          rw [← e]; exact ⟨a, rreach_iff.mp b⟩
+      · rintro ⟨hlx, hrx⟩
+        have hPx : TRef st sb x := ⟨hlx, rreach_iff.mpr hrx⟩
+        rcases b1 x hPx with e | hkx
+        · subst e
+          obtain ⟨s', hs', e'⟩ := q1 x (by simp)
+          have : s' = x := live_inj (p1 s' hs').1 hlx e'
+          subst this
+          exact List.mem_append_left _ hs'
+        · have hkx' := r2 _ hkx
+          obtain ⟨p, hp, e⟩ := List.mem_map.mp hkx'
+          have hpx : p.2.1 = x := live_inj (p2 p hp).1 hlx ((r1.ids p hp).trans e)
+          by_cases hin : ∃ s ∈ out, s.id = p.1
+          · obtain ⟨s, hs, e'⟩ := hin
+            have : s = x := live_inj (p1 s hs).1 hlx (e'.trans e)
+            subst this
+            exact List.mem_append_left _ hs
+          · have hc : p.2.2 ≠ 0 := by
+              intro h0
+              rcases r1.cover p hp h0 with h' | ⟨s, hs, _⟩
+              · exact hin h'
+              · cases hs
+            refine List.mem_append_right _ (List.mem_map.mpr ⟨p, List.mem_filter.mpr
+              ⟨(ho.2.2 1 deg').mem_iff.mpr hp, ?_⟩, hpx⟩)
+            simp only [Bool.and_eq_true, Bool.not_eq_true', List.any_eq_false, decide_eq_true_eq,
+              ne_eq, hc, not_false_eq_true, true_and]
+            intro s hs e'
+            exact hin ⟨s, hs, e'⟩
+
+
+/-! ### frame: removing / adding one symbol -/
+
+theorem edge_congr {st st' : State} (hs : st'.symbols = st.symbols) (hn : st'.namespaces = st.namespaces)
+    (x y : Sym) : Edge st' x y ↔ Edge st x y := by
+  unfold Edge resolve lookupName; rw [hs, hn]
+
+theorem localOK_congr {st st' : State} (hs : st'.symbols = st.symbols) (hn : st'.namespaces = st.namespaces)
+    (x : Sym) : LocalOK st' x ↔ LocalOK st x := by
+  unfold LocalOK resolve lookupName; rw [hs, hn]
+
+theorem reach_congr {st st' : State} (hs : st'.symbols = st.symbols) (hn : st'.namespaces = st.namespaces)
+    (x y : Sym) : Reach st' x y ↔ Reach st x y := by
+  constructor
+  · intro h; induction h with
+    | refl => exact Reach.refl
+    | step _ he ih => exact Reach.step ih ((edge_congr hs hn _ _).mp he)
+  · intro h; induction h with
+    | refl => exact Reach.refl
+    | step _ he ih => exact Reach.step ih ((edge_congr hs hn _ _).mpr he)
+
+theorem closure_congr {st st' : State} (hs : st'.symbols = st.symbols) (hn : st'.namespaces = st.namespaces)
+    (x : Sym) : ClosureOK st' x ↔ ClosureOK st x := by
+  unfold ClosureOK
+  constructor
+  · intro h t ht; exact (localOK_congr hs hn t).mp (h t ((reach_congr hs hn x t).mpr ht))
+  · intro h t ht; exact (localOK_congr hs hn t).mpr (h t ((reach_congr hs hn x t).mp ht))
+
+/-- `small` is `big` without the symbol `sb`. -/
+structure Frame (small big : State) (sb : Sym) : Prop where
+  sm : TBase small
+  bg : TBase big
+  f1 : ∀ k, aget k small.symbols = if k = sb.id then none else aget k big.symbols
+  f2 : aget sb.id big.symbols = some sb
+
+theorem Frame.names {small big : State} {sb : Sym} (F : Frame small big sb) (ns : Nat) (r : Ref) (t : Nat)
+    (ht : t ≠ sb.id) : Names small ns r t ↔ Names big ns r t := by
+  unfold Names; rw [F.f1 t]; simp [ht]
+
+theorem Frame.tgt {small big : State} {sb : Sym} (F : Frame small big sb) (ns : Nat) (r : Ref) (T : Sym) :
+    aget (resolve small ns r) small.symbols = some T ↔
+      (aget (resolve big ns r) big.symbols = some T ∧ T.id ≠ sb.id) := by
+  constructor
+  · intro h
+    have hid : T.id = resolve small ns r := F.sm.keyId _ _ h
+    have hne : T.id ≠ sb.id := by
+      intro e; rw [← hid, e, F.f1] at h; simp at h
+    have hb : aget T.id big.symbols = some T := by
+      have := h; rw [← hid, F.f1] at this; simpa [hne] using this
+    have hN := (resolve_iff F.sm ns r T.id T (by rw [hid]; exact h)).mp hid.symm
+    have := (resolve_iff F.bg ns r T.id T hb).mpr ((F.names ns r T.id hne).mp hN)
+    rw [this]; exact ⟨hb, hne⟩
+  · rintro ⟨h, hne⟩
+    have hid : T.id = resolve big ns r := F.bg.keyId _ _ h
+    have hs : aget T.id small.symbols = some T := by
+      rw [F.f1]; simp only [hne, if_false]; rw [hid]; exact h
+    have hN := (resolve_iff F.bg ns r T.id T (by rw [hid]; exact h)).mp hid.symm
+    have := (resolve_iff F.sm ns r T.id T hs).mpr ((F.names ns r T.id hne).mpr hN)
+    rw [this]; exact hs
+
+theorem Frame.eq_sb {small big : State} {sb : Sym} (F : Frame small big sb) {ns : Nat} {r : Ref} {T : Sym}
+    (h : aget (resolve big ns r) big.symbols = some T) (e : T.id = sb.id) : T = sb := by
+  have hid : T.id = resolve big ns r := F.bg.keyId _ _ h
+  rw [← hid, e, F.f2] at h; exact (Option.some.inj h).symm
+
+theorem Frame.edge {small big : State} {sb : Sym} (F : Frame small big sb) (y u : Sym) :
+    Edge small y u ↔ Edge big y u ∧ u.id ≠ sb.id := by
+  unfold Edge
+  constructor
+  · rintro ⟨np, hnp, r, hr, h, hns⟩
+    obtain ⟨h1, h2⟩ := (F.tgt y.ns r u).mp h
+    exact ⟨⟨np, hnp, r, hr, h1, hns⟩, h2⟩
+  · rintro ⟨⟨np, hnp, r, hr, h, hns⟩, h2⟩
+    exact ⟨np, hnp, r, hr, (F.tgt y.ns r u).mpr ⟨h, h2⟩, hns⟩
+
+theorem Frame.localOK {small big : State} {sb : Sym} (F : Frame small big sb) (y : Sym) :
+    LocalOK small y ↔ LocalOK big y ∧ ¬ Edge big y sb := by
+  unfold LocalOK
+  constructor
+  · rintro ⟨hn, hall⟩
+    refine ⟨⟨hn, ?_⟩, ?_⟩
+    · intro np hnp r hr
+      obtain ⟨T, h, hns⟩ := hall np hnp r hr
+      exact ⟨T, ((F.tgt y.ns r T).mp h).1, hns⟩
+    · rintro ⟨np, hnp, r, hr, h, _⟩
+      obtain ⟨T, h', _⟩ := hall np hnp r hr
+      obtain ⟨h1, h2⟩ := (F.tgt y.ns r T).mp h'
+      rw [h] at h1; cases h1; exact h2 rfl
+  · rintro ⟨⟨hn, hall⟩, hne⟩
+    refine ⟨hn, ?_⟩
+    intro np hnp r hr
+    obtain ⟨T, h, hns⟩ := hall np hnp r hr
+    refine ⟨T, (F.tgt y.ns r T).mpr ⟨h, ?_⟩, hns⟩
+    intro e
+    have := F.eq_sb h e
+    subst this
+    exact hne ⟨np, hnp, r, hr, h, hns⟩
+
+theorem Frame.reach_up {small big : State} {sb : Sym} (F : Frame small big sb) {x y : Sym}
+    (h : Reach small x y) : Reach big x y := by
+  induction h with
+  | refl => exact Reach.refl
+  | step _ he ih => exact Reach.step ih ((F.edge _ _).mp he).1
+
+theorem Frame.edge_sb {small big : State} {sb : Sym} (F : Frame small big sb) {t u : Sym}
+    (he : Edge big t u) (e : u.id = sb.id) : u = sb := by
+  obtain ⟨np, _, r, _, h, _⟩ := he
+  exact F.eq_sb h e
+
+theorem Frame.closure {small big : State} {sb : Sym} (F : Frame small big sb) (x : Sym) (hx : x ≠ sb) :
+    ClosureOK small x ↔ ClosureOK big x ∧ ¬ Reach big x sb := by
+  constructor
+  · intro hc
+    have key : ∀ y, Reach big x y → Reach small x y ∧ (y = x ∨ y.id ≠ sb.id) := by
+      intro y hy
+      induction hy with
+      | refl => exact ⟨Reach.refl, Or.inl rfl⟩
+      | @step t u _ he ih =>
+        have hloc := (F.localOK t).mp (hc t ih.1)
+        have hu : u.id ≠ sb.id := by
+          intro e; have := F.edge_sb he e; subst this; exact hloc.2 he
+        exact ⟨Reach.step ih.1 ((F.edge t u).mpr ⟨he, hu⟩), Or.inr hu⟩
+    refine ⟨fun y hy => ((F.localOK y).mp (hc y (key y hy).1)).1, ?_⟩
+    intro hr
+    -- the last edge into sb contradicts local soundness in `small`
+    cases hr with
+    | refl => exact hx rfl
+    | @step t _ hrt he =>
+      exact ((F.localOK t).mp (hc t (key t hrt).1)).2 he
+  · rintro ⟨hc, hnr⟩ y hy
+    have hyb := F.reach_up hy
+    exact (F.localOK y).mpr ⟨hc y hyb, fun he => hnr (Reach.step hyb he)⟩
+
+
+/-! ### the log -/
+
+theorem balance_append (k : Nat) (a b : List Event) : balance k (a ++ b) = balance k a + balance k b := by
+  induction a with
+  | nil => simp [balance]
+  | cons e a ih => cases e <;> simp [balance, ih] <;> omega
+
+theorem balance_loadBlocks (st : State) (k : Nat) (done : List Sym) (hn : (done.map (·.id)).Nodup) :
+    balance k (done.flatMap (fun x => [flowEv st x .init, Event.load x.id, flowEv st x .begin])) =
+      if k ∈ done.map (·.id) then 1 else 0 := by
+  induction done with
+  | nil => simp [balance]
+  | cons x xs ih =>
+    simp only [List.map_cons, List.nodup_cons] at hn
+    simp only [List.flatMap_cons, balance_append, ih hn.2, List.map_cons, List.mem_cons]
+    by_cases h : x.id = k
+    · subst h
+      simp [balance, flowEv, hn.1]
+    · have h' : ¬ k = x.id := fun e => h e.symm
+      simp [balance, flowEv, h, h']
+
+theorem balance_unloadBlocks (st : State) (k : Nat) (done : List Sym) (hn : (done.map (·.id)).Nodup) :
+    balance k (done.flatMap (fun x => [flowEv st x .term, Event.unload x.id, flowEv st x .final])) =
+      if k ∈ done.map (·.id) then -1 else 0 := by
+  induction done with
+  | nil => simp [balance]
+  | cons x xs ih =>
+    simp only [List.map_cons, List.nodup_cons] at hn
+    simp only [List.flatMap_cons, balance_append, ih hn.2, List.map_cons, List.mem_cons]
+    by_cases h : x.id = k
+    · subst h
+      simp [balance, flowEv, hn.1]
+    · have h' : ¬ k = x.id := fun e => h e.symm
+      simp [balance, flowEv, h, h']
+
+/-- Per symbol the load / unload notifications alternate starting with load, and a node is closed
+only while its symbol is not loaded. -/
+structure LogOK (L : List Event) : Prop where
+  alt : ∀ k pre, pre <+: L → balance k pre = 0 ∨ balance k pre = 1
+  cls : ∀ k pre, pre ++ [Event.close k] <+: L → balance k pre = 0
+
+def SafeEv (L : List Event) : Event → Prop
+  | .load k => balance k L = 0
+  | .unload k => balance k L = 1
+  | .close k => balance k L = 0
+  | .exec _ _ _ => True
+
+theorem logOK_snoc {L : List Event} (h : LogOK L) (e : Event) (hs : SafeEv L e) : LogOK (L ++ [e]) := by
+  refine ⟨?_, ?_⟩
+  · intro k pre hp
+    rcases List.prefix_concat_iff.mp hp with e' | hp
+    · subst e'
+      have hL := h.alt k L (List.prefix_refl _)
+      rw [balance_append]
+      cases e with
+      | load j =>
+        simp only [SafeEv] at hs
+        by_cases hj : j = k
+        · subst hj; simp [balance, hs]
+        · simp [balance, hj]; exact hL
+      | unload j =>
+        simp only [SafeEv] at hs
+        by_cases hj : j = k
+        · subst hj; simp [balance, hs]
+        · simp [balance, hj]; exact hL
+      | close j => simp [balance]; exact hL
+      | exec a b c => simp [balance]; exact hL
+    · exact h.alt k pre hp
+  · intro k pre hp
+    rcases List.prefix_concat_iff.mp hp with e' | hp
+    · obtain ⟨e1, e2⟩ := List.append_singleton_inj.mp e'
+      subst e1; subst e2
+      exact hs
+    · exact h.cls k pre hp
+
+theorem logOK_loadBlocks (st : State) {L : List Event} (h : LogOK L) (done : List Sym)
+    (hn : (done.map (·.id)).Nodup) (h0 : ∀ x ∈ done, balance x.id L = 0) :
+    LogOK (L ++ done.flatMap (fun x => [flowEv st x .init, Event.load x.id, flowEv st x .begin])) := by
+  induction done generalizing L with
+  | nil => simpa using h
+  | cons x xs ih =>
+    simp only [List.map_cons, List.nodup_cons] at hn
+    simp only [List.flatMap_cons]
+    have e : L ++ ([flowEv st x .init, Event.load x.id, flowEv st x .begin] ++
+        xs.flatMap (fun x => [flowEv st x .init, Event.load x.id, flowEv st x .begin])) =
+        (((L ++ [flowEv st x .init]) ++ [Event.load x.id]) ++ [flowEv st x .begin]) ++
+        xs.flatMap (fun x => [flowEv st x .init, Event.load x.id, flowEv st x .begin]) := by simp
+    rw [e]
+    have hx := h0 x (by simp)
+    have h1 := logOK_snoc h (flowEv st x .init) (by simp [flowEv, SafeEv])
+    have h2 := logOK_snoc h1 (Event.load x.id) (by simp [SafeEv, balance_append, balance, flowEv, hx])
+    have h3 := logOK_snoc h2 (flowEv st x .begin) (by simp [flowEv, SafeEv])
+    apply ih h3 hn.2
+    intro y hy
+    have hne : x.id ≠ y.id := by
+      intro e'; apply hn.1; rw [e']; exact List.mem_map.mpr ⟨y, hy, rfl⟩
+    simp [balance_append, balance, flowEv, hne, h0 y (List.mem_cons_of_mem _ hy)]
+
+theorem logOK_unloadBlocks (st : State) {L : List Event} (h : LogOK L) (done : List Sym)
+    (hn : (done.map (·.id)).Nodup) (h0 : ∀ x ∈ done, balance x.id L = 1) :
+    LogOK (L ++ done.flatMap (fun x => [flowEv st x .term, Event.unload x.id, flowEv st x .final])) := by
+  induction done generalizing L with
+  | nil => simpa using h
+  | cons x xs ih =>
+    simp only [List.map_cons, List.nodup_cons] at hn
+    simp only [List.flatMap_cons]
+    have e : L ++ ([flowEv st x .term, Event.unload x.id, flowEv st x .final] ++
+        xs.flatMap (fun x => [flowEv st x .term, Event.unload x.id, flowEv st x .final])) =
+        (((L ++ [flowEv st x .term]) ++ [Event.unload x.id]) ++ [flowEv st x .final]) ++
+        xs.flatMap (fun x => [flowEv st x .term, Event.unload x.id, flowEv st x .final]) := by simp
+    rw [e]
+    have hx := h0 x (by simp)
+    have h1 := logOK_snoc h (flowEv st x .term) (by simp [flowEv, SafeEv])
+    have h2 := logOK_snoc h1 (Event.unload x.id) (by simp [SafeEv, balance_append, balance, flowEv, hx])
+    have h3 := logOK_snoc h2 (flowEv st x .final) (by simp [flowEv, SafeEv])
+    apply ih h3 hn.2
+    intro y hy
+    have hne : x.id ≠ y.id := by
+      intro e'; apply hn.1; rw [e']; exact List.mem_map.mpr ⟨y, hy, rfl⟩
+    simp [balance_append, balance, flowEv, hne, h0 y (List.mem_cons_of_mem _ hy)]
+
+
+/-! ### the activation invariant -/
+
+/-- The symbol stored under `k` is present and its reference closure is present. -/
+def Cl (st : State) (k : Nat) : Prop := ∃ s, aget k st.symbols = some s ∧ ClosureOK st s
+
+structure AInv (st : State) : Prop where
+  act : ∀ k, (balance k st.log = 1 ∧ Cl st k) ∨ (balance k st.log = 0 ∧ ¬ Cl st k)
+  log : LogOK st.log
+
+theorem activated_iff (o : Ord) (ho : o.Valid) (st : State) (hk : KeyId st) (x : Sym) (hl : Live st x) :
+    isActivated o st x = some true ↔ ClosureOK st x := by
+  have hn := isActivated_ne_none o ho st hk x
+  cases hb : isActivated o st x with
+  | none => exact absurd hb hn
+  | some b =>
+    have := C07.isActivated_iff_closure o ho st hk x hl b hb
+    cases b with
+    | true => simp [this.mp rfl]
+    | false =>
+      simp only [Option.some.injEq, Bool.false_eq_true, false_iff]
+      intro hc; have := this.mpr hc; cases this
+
+/-- What one pass over `linked(sb)` (in either direction) notifies, and how it splits the
+symbols with a present closure. -/
+theorem pass_split (o : Ord) (ho : o.Valid) (small big : State) (sb : Sym) (hR : RInv big)
+    (F : Frame small big sb) (l l' done : List Sym) (hl : linked o big sb = some l)
+    (hperm : ∀ x, x ∈ l' ↔ x ∈ l) (hsub : l'.Sublist l ∨ l'.Sublist l.reverse)
+    (hd : done = l'.filter (fun x => isActivated o big x = some true)) :
+    (done.map (·.id)).Nodup ∧
+    (∀ k, Cl big k ↔ (Cl small k ∨ ∃ x ∈ done, x.id = k)) ∧
+    (∀ k, Cl small k → ¬ ∃ x ∈ done, x.id = k) := by
+  have hsbL : Live big sb := F.f2
+  have hspec := linked_spec o ho big hR sb hsbL l hl
+  have hD : ∀ x, x ∈ done ↔ (Live big x ∧ Reach big x sb ∧ ClosureOK big x) := by
+    intro x
+    rw [hd, List.mem_filter, hperm, hspec]
+    constructor
+    · rintro ⟨⟨h1, h2⟩, h3⟩
+      exact ⟨h1, h2, (activated_iff o ho big hR.keyId x h1).mp (by simpa using h3)⟩
+    · rintro ⟨h1, h2, h3⟩
+      exact ⟨⟨h1, h2⟩, by simpa using (activated_iff o ho big hR.keyId x h1).mpr h3⟩
+  have hS : ∀ k, Cl small k ↔ ∃ s, aget k big.symbols = some s ∧ k ≠ sb.id ∧ ClosureOK big s ∧ ¬ Reach big s sb := by
+    intro k
+    unfold Cl
+    constructor
+    · rintro ⟨s, h1, h2⟩
+      rw [F.f1] at h1
+      split at h1
+      · cases h1
+      · rename_i hne
+        have hsne : s ≠ sb := by
+          intro e; subst e; exact hne (hR.keyId _ _ h1).symm
+        exact ⟨s, h1, hne, (F.closure s hsne).mp h2⟩
+    · rintro ⟨s, h1, hne, h2⟩
+      have hsne : s ≠ sb := by
+        intro e; subst e; exact hne (hR.keyId _ _ h1).symm
+      exact ⟨s, by rw [F.f1]; simp [hne, h1], (F.closure s hsne).mpr h2⟩
+  have hnodup : (done.map (·.id)).Nodup := by
+    have hn := C07.linked_nodup o ho big sb l hl
+    have hn' : (l'.map (·.id)).Nodup := by
+      rcases hsub with h | h
+      · exact (h.map _).nodup hn
+      · exact (h.map _).nodup (by rw [List.map_reverse]; exact (List.reverse_perm _).nodup_iff.mpr hn)
+    rw [hd]
+    exact (List.Sublist.map _ List.filter_sublist).nodup hn'
+  refine ⟨hnodup, ?_, ?_⟩
+  · intro k
+    constructor
+    · rintro ⟨s, h1, h2⟩
+      have hls : Live big s := by unfold Live; rw [hR.keyId _ _ h1]; exact h1
+      by_cases hr : Reach big s sb
+      · exact Or.inr ⟨s, (hD s).mpr ⟨hls, hr, h2⟩, hR.keyId _ _ h1⟩
+      · left
+        refine (hS k).mpr ⟨s, h1, ?_, h2, hr⟩
+        intro e
+        rw [e, F.f2] at h1; cases h1
+        exact hr Reach.refl
+    · rintro (h | ⟨x, hx, e⟩)
+      · obtain ⟨s, h1, _, h2, _⟩ := (hS k).mp h
+        exact ⟨s, h1, h2⟩
+      · obtain ⟨h1, _, h3⟩ := (hD x).mp hx
+        exact ⟨x, by rw [← e]; exact h1, h3⟩
+  · rintro k h ⟨x, hx, e⟩
+    obtain ⟨s, h1, _, _, h4⟩ := (hS k).mp h
+    obtain ⟨g1, g2, _⟩ := (hD x).mp hx
+    have : aget k big.symbols = some x := by rw [← e]; exact g1
+    rw [h1] at this; cases this
+    exact h4 g2
+
+theorem cl_congr {st st' : State} (hs : st'.symbols = st.symbols) (hn : st'.namespaces = st.namespaces)
+    (k : Nat) : Cl st' k ↔ Cl st k := by
+  unfold Cl; rw [hs]
+  constructor
+  · rintro ⟨s, h1, h2⟩; exact ⟨s, h1, (closure_congr hs hn s).mp h2⟩
+  · rintro ⟨s, h1, h2⟩; exact ⟨s, h1, (closure_congr hs hn s).mpr h2⟩
+
+theorem cl_log (st : State) (lg : List Event) (k : Nat) : Cl { st with log := lg } k ↔ Cl st k :=
+  cl_congr (st := st) (st' := { st with log := lg }) rfl rfl k
+
+theorem ainv_insert (o : Ord) (ho : o.Valid) (st : State) (sb : Sym) (h : RInv st) (ha : AInv st)
+    (hfresh : aget sb.id st.symbols = none) (hwf : sb.wf) (hnf : NameFree st sb)
+    (hok : (insert o st sb).2 = .ok) : AInv (insert o st sb).1 := by
+  have hRf := rinv_insert o ho st sb h hfresh hwf hnf
+  rw [insert_eq] at hRf hok ⊢
+  have hlt := load_table o (links o (stored st sb) sb) sb
+  have hRb : RInv (links o (stored st sb) sb) := by
+    rw [hlt] at hRf
+    exact rinv_congr hRf rfl rfl rfl rfl
+  obtain ⟨hsym, _, _⟩ := stored_fields st sb
+  have hbsym : (links o (stored st sb) sb).symbols = aset sb.id sb st.symbols := by
+    rw [(links_symbols _ _ _).1, hsym]
+  have hblog : (links o (stored st sb) sb).log = st.log := by
+    rw [(links_symbols _ _ _).2.2]; unfold stored; simp only; split <;> rfl
+  have F : Frame st (links o (stored st sb) sb) sb := by
+    refine ⟨h.toTBase, hRb.toTBase, ?_, by rw [hbsym]; simp [aget_aset]⟩
+    intro k
+    rw [hbsym, aget_aset]
+    by_cases hk : k = sb.id
+    · simp [hk, hfresh]
+    · simp [hk]
+  have hln := linked_ne_none o ho (links o (stored st sb) sb) sb
+  cases hl : linked o (links o (stored st sb) sb) sb with
+  | none => exact absurd hl hln
+  | some l =>
+    obtain ⟨s⟩ := Pass08.lifecycle_order_load o _ sb l hl
+    obtain ⟨ht, hdone⟩ := s.ok hok
+    obtain ⟨p1, p2, p3⟩ := pass_split o ho st _ sb hRb F l l s.done hl (fun _ => Iff.rfl)
+      (Or.inl (List.Sublist.refl _)) hdone
+    have hstate := s.state
+    rw [ht, List.append_nil, hblog] at hstate
+    rw [hstate]
+    have hbal : ∀ k, balance k (st.log ++ s.done.flatMap (fun x =>
+        [flowEv (links o (stored st sb) sb) x .init, Event.load x.id,
+          flowEv (links o (stored st sb) sb) x .begin])) =
+        balance k st.log + if k ∈ s.done.map (·.id) then 1 else 0 := by
+      intro k; rw [balance_append, balance_loadBlocks _ k _ p1]
+    have hmem : ∀ k, k ∈ s.done.map (·.id) ↔ ∃ x ∈ s.done, x.id = k := by
+      intro k; simp [List.mem_map]
+    refine ⟨?_, ?_⟩
+    · intro k
+      simp only
+      rw [hbal k, cl_log, p2 k]
+      rcases ha.act k with ⟨b, c⟩ | ⟨b, c⟩
+      · left
+        have : k ∉ s.done.map (·.id) := fun hm => p3 k c ((hmem k).mp hm)
+        simp [this, b, c]
+      · by_cases hm : k ∈ s.done.map (·.id)
+        · left; simp [hm, b, (hmem k).mp hm]
+        · right
+          simp only [hm, if_false, b, Int.add_zero, true_and]
+          rintro (h' | h')
+          · exact c h'
+          · exact hm ((hmem k).mpr h')
+    · simp only
+      apply logOK_loadBlocks _ ha.log _ p1
+      intro x hx
+      rcases ha.act x.id with ⟨_, c⟩ | ⟨b, _⟩
+      · exact absurd ⟨x, hx, rfl⟩ (p3 x.id c)
+      · exact b
+
+theorem freeRest_log (o : Ord) (st1 : State) (sb : Sym) (id : Nat) :
+    (freeRest o st1 sb id).log = st1.log ++ (if sb.hasNode then [Event.close sb.id] else []) := by
+  unfold freeRest closeSym
+  simp only
+  cases sb.hasNode <;> simp <;> split <;> rfl
+
+theorem ainv_free (o : Ord) (ho : o.Valid) (st : State) (id : Nat) (h : RInv st) (ha : AInv st)
+    (hok : (free o st id).2.1 = .ok) : AInv (free o st id).1 := by
+  have hRf := rinv_free o ho st id h
+  rw [free_eq] at hRf hok ⊢
+  cases hs : aget id st.symbols with
+  | none => exact ha
+  | some sb =>
+    rw [hs] at hRf hok
+    simp only at hRf hok ⊢
+    have hid : sb.id = id := h.keyId _ _ hs
+    by_cases hu : (unload o st sb).2 = .ok
+    · rw [if_pos hu] at hRf ⊢
+      simp only at hRf ⊢
+      have hln := linked_ne_none o ho st sb
+      cases hl : linked o st sb with
+      | none => exact absurd hl hln
+      | some l =>
+        obtain ⟨s⟩ := Pass08.lifecycle_order_unload o st sb l hl
+        obtain ⟨ht, hdone⟩ := s.ok hu
+        have hstate := s.state
+        rw [ht, List.append_nil] at hstate
+        have hfsym : (freeRest o (unload o st sb).1 sb id).symbols = adel id st.symbols := by
+          rw [freeRest_symbols, hstate]
+        have F : Frame (freeRest o (unload o st sb).1 sb id) st sb := by
+          refine ⟨hRf.toTBase, h.toTBase, ?_, by rw [hid]; exact hs⟩
+          intro k; rw [hfsym, aget_adel, hid]
+        obtain ⟨p1, p2, p3⟩ := pass_split o ho _ st sb h F l l.reverse s.done hl
+          (fun x => List.mem_reverse) (Or.inr (List.Sublist.refl _)) hdone
+        have hmem : ∀ k, k ∈ s.done.map (·.id) ↔ ∃ x ∈ s.done, x.id = k := by
+          intro k; simp [List.mem_map]
+        have hbal : ∀ k, balance k (unload o st sb).1.log =
+            balance k st.log + if k ∈ s.done.map (·.id) then -1 else 0 := by
+          intro k; rw [hstate]; simp only; rw [balance_append, balance_unloadBlocks _ k _ p1]
+        have hact : ∀ k, (balance k (unload o st sb).1.log = 1 ∧ Cl (freeRest o (unload o st sb).1 sb id) k) ∨
+            (balance k (unload o st sb).1.log = 0 ∧ ¬ Cl (freeRest o (unload o st sb).1 sb id) k) := by
+          intro k
+          rw [hbal k]
+          rcases ha.act k with ⟨b, c⟩ | ⟨b, c⟩
+          · by_cases hm : k ∈ s.done.map (·.id)
+            · right
+              simp only [hm, if_true, b]
+              exact ⟨by omega, fun hc => p3 k hc ((hmem k).mp hm)⟩
+            · left
+              simp only [hm, if_false, b, Int.add_zero, true_and]
+              rcases (p2 k).mp c with h' | h'
+              · exact h'
+              · exact absurd ((hmem k).mpr h') hm
+          · right
+            have hm : k ∉ s.done.map (·.id) := by
+              intro hm; exact c ((p2 k).mpr (Or.inr ((hmem k).mp hm)))
+            simp only [hm, if_false, b, Int.add_zero, true_and]
+            intro hc; exact c ((p2 k).mpr (Or.inl hc))
+        have hlogU : LogOK (unload o st sb).1.log := by
+          rw [hstate]; simp only
+          apply logOK_unloadBlocks _ ha.log _ p1
+          intro x hx
+          rcases ha.act x.id with ⟨b, _⟩ | ⟨_, c⟩
+          · exact b
+          · exact absurd ((p2 x.id).mpr (Or.inr ⟨x, hx, rfl⟩)) c
+        have hsb0 : balance sb.id (unload o st sb).1.log = 0 := by
+          rcases hact sb.id with ⟨_, c⟩ | ⟨b, _⟩
+          · obtain ⟨t, ht', _⟩ := c
+            rw [hfsym, aget_adel, hid] at ht'; simp at ht'
+          · exact b
+        refine ⟨?_, ?_⟩
+        · intro k
+          rw [freeRest_log]
+          cases sb.hasNode with
+          | false => simpa using hact k
+          | true =>
+            simp only [if_true, balance_append, balance, Int.add_zero]
+            exact hact k
+        · rw [freeRest_log]
+          cases sb.hasNode with
+          | false => simpa using hlogU
+          | true =>
+            simp only [if_true]
+            exact logOK_snoc hlogU _ hsb0
+    · rw [if_neg hu] at hok
+      exact absurd hok hu
+
+end Uniflow.Table
+
+namespace Uniflow.Table
+
+theorem ainv_init : AInv {} := by
+  refine ⟨?_, ?_, ?_⟩
+  · intro k; right
+    refine ⟨rfl, ?_⟩
+    rintro ⟨s, h, _⟩; cases h
+  · intro k pre hp
+    have : pre = [] := List.prefix_nil.mp hp
+    subst this; exact Or.inl rfl
+  · intro k pre hp
+    have := List.prefix_nil.mp hp
+    simp at this
+
+theorem ainv_freeAll (o : Ord) (ho : o.Valid) (st : State) (l : List Sym) (h : RInv st) (ha : AInv st)
+    (hok : (freeAll o st l).2 = .ok) : AInv (freeAll o st l).1 := by
+  induction l generalizing st with
+  | nil => exact ha
+  | cons x xs ih =>
+    unfold freeAll at hok ⊢
+    have h1 := rinv_free o ho st x.id h
+    have h2 := ainv_free o ho st x.id h ha
+    cases hf : free o st x.id with
+    | mk st1 rb =>
+      obtain ⟨r, b⟩ := rb
+      rw [hf] at h1 h2 hok
+      cases r with
+      | ok => exact ih st1 h1 (h2 rfl) hok
+      | err es => simp at hok
+      | panic => simp at hok
+
+theorem ainv_step (o : Ord) (ho : o.Valid) (st : State) (op : Op) (h : RInv st) (ha : AInv st)
+    (hw : WfOp st op) (hok : (step o st op).2.1 = .ok) : AInv (step o st op).1 := by
+  cases op with
+  | insert sb =>
+    rw [step_insert_eq] at hok ⊢
+    have h1 := rinv_free o ho st sb.id h
+    split
+    · rename_i hfo
+      rw [if_pos hfo] at hok
+      have hfs := fun k => free_symbols o st sb.id k
+      simp only [hfo, true_and] at hfs
+      refine ainv_insert o ho _ sb h1 (ainv_free o ho st sb.id h ha hfo) (by rw [hfs]; simp) hw.1 ?_ hok
+      intro hn k t hk h2 h3
+      rw [hfs] at hk
+      split at hk
+      · cases hk
+      · exact hw.2 hn k t hk h2 h3
+    · rename_i hfo
+      rw [if_neg hfo] at hok
+      exact absurd hok hfo
+  | free id => exact ainv_free o ho st id h ha hok
+  | close =>
+    rw [step_close_eq] at hok ⊢
+    cases hc : closeOrder o st with
+    | none => rw [hc] at hok; simp at hok
+    | some l =>
+      rw [hc] at hok
+      exact ainv_freeAll o ho st l h ha hok
+
+theorem ainv_run (o : Ord) (ho : o.Valid) (h : List Op) (st : State) (hr : RInv st) (ha : AInv st)
+    (hw : WfRun o st h) (hok : OkRun o st h) : AInv (run o st h) := by
+  induction h generalizing st with
+  | nil => exact ha
+  | cons op ops ih =>
+    exact ih _ (rinv_step o ho st op hr hw.1) (ainv_step o ho st op hr ha hw.1 hok.1) hw.2 hok.2
+
+theorem specRun_append_close (m : Nat → Option Sym) (h : List Op) (k : Nat) :
+    specRun m (h ++ [.close]) k = none := by
+  induction h generalizing m with
+  | nil => rfl
+  | cons op ops ih => exact ih _
+
+end Uniflow.Table
+
+/-- **`references_exact`.** After every well-formed history the reverse index `references[t][i]`
+contains the entry `{ID: s, Name: n, Port: o}` exactly when `s` and `t` are present symbols of the
+same namespace and the spec of `s` lists under out-port `o` a reference with in-port `i` and
+name field `n` that names `t` (by id, or by name among the present symbols) – through the fixed
+`unlinks` filter, whatever the operations returned. -/
+theorem C07.references_exact (o : Ord) (ho : o.Valid) (h : List Op) (hw : WfRun o {} h) (t i : Nat) (e : Ref) :
+    e ∈ refsAt (run o {} h).references t i ↔ RefSpec (run o {} h) t i e :=
+  (rinv_run o ho h {} rinv_init hw).refs t i e
+
+/-- **Fuel sufficiency.** After every history (well-formed or not) no operation returns `panic`:
+the four queue / stack loops never run out of the fuel the model gives them. -/
+theorem C07.no_fuel_exhaustion (o : Ord) (ho : o.Valid) (h : List Op) (op : Op) :
+    (step o (run o {} h) op).2.1 ≠ .panic :=
+  step_ne_panic o ho _ (C07.reachable_keyId o h) op
+
+/-- **`linked(sb)` is exactly the set of present symbols that reach `sb`** (in every state
+reached by a well-formed history). -/
+theorem C07.linked_exact (o : Ord) (ho : o.Valid) (h : List Op) (hw : WfRun o {} h) (sb : Sym)
+    (hsb : Live (run o {} h) sb) (l : List Sym) (hl : linked o (run o {} h) sb = some l) (x : Sym) :
+    x ∈ l ↔ (Live (run o {} h) x ∧ Reach (run o {} h) x sb) :=
+  linked_spec o ho _ (rinv_run o ho h {} rinv_init hw) sb hsb l hl x
+
+theorem C07.active_iff_closure : C07.active_iff_closure_full := by
+  intro o ho h hw hok k
+  have ha := ainv_run o ho h {} rinv_init ainv_init hw hok
+  unfold activeIn
+  rcases ha.act k with ⟨b, c⟩ | ⟨b, c⟩
+  · rw [b]; exact ⟨fun _ => c, fun _ => by decide⟩
+  · rw [b]; exact ⟨fun h' => absurd h' (by decide), fun h' => absurd h' c⟩
+
+theorem C07.alternation : C07.alternation_full := by
+  intro o ho h hw hok k pre hp
+  exact (ainv_run o ho h {} rinv_init ainv_init hw hok).log.alt k pre hp
+
+theorem C07.unload_before_close : C07.unload_before_close_full := by
+  intro o ho h hw hok k pre hp
+  exact (ainv_run o ho h {} rinv_init ainv_init hw hok).log.cls k pre hp
+
+theorem C07.close_unloads_all : C07.close_unloads_all_full := by
+  intro o ho h hw hok k hact
+  obtain ⟨s, hs, _⟩ := (C07.active_iff_closure o ho (h ++ [.close]) hw hok k).mp hact
+  have := C06.lookup_latest o ho (h ++ [Op.close]) hok k
+  rw [specRun_append_close, hs] at this
+  cases this
